@@ -377,6 +377,22 @@ struct Runner {
     // out-of-range write must be refused and change nothing
     Error e2 = alloc->write(l.span, l.span.size() - 1, data.data(), 2);
     if (e2 == Error::kOk) fail("write-out-of-range-accepted", "write past the end of the span succeeded");
+    // boundary (offset, size) pairs: everything that does not lie inside the span must be refused - including pairs whose sum
+    // wraps around SIZE_MAX - and must change neither this span nor its neighbours (all live contents are verified)
+    {
+      const size_t sz = l.span.size();
+      const size_t pairs[][2] = { { sz, 1 }, { sz + 1, 0 }, { 0, sz + 1 }, { sz - 1, SIZE_MAX }, { SIZE_MAX, 1 }, { SIZE_MAX - 3, 8 }, { SIZE_MAX - 63, 64 },
+                                  { SIZE_MAX / 2 + 1, SIZE_MAX / 2 + 2 }, { 1, SIZE_MAX } };
+      const size_t* pr = pairs[r.below(sizeof(pairs) / sizeof(pairs[0]))];
+      size_t take = std::min<size_t>(pr[1], data.size());   // the source buffer only has to be valid for what a correct refusal never reads
+      (void)take;
+      Error e3 = alloc->write(l.span, pr[0], data.data(), pr[1]);
+      if (e3 == Error::kOk) {
+        char b[160]; snprintf(b, sizeof b, "write(span of %zu bytes, offset %zu, size %zu) succeeded", sz, pr[0], pr[1]);
+        fail("write-out-of-range-accepted", b);
+      }
+      for (auto& kv : live) verify_contents(kv.second, "after-refused-write");
+    }
     verify_contents(l, "after-write");
   }
 
